@@ -399,6 +399,9 @@ func (x *treeExec) register(i int, e hEntry) (accepted bool, detail string) {
 			}()
 		}
 		x.last = o
+		// a handler may use the Params map it was handed as scratch space: the map belongs to this request alone,
+		// so nothing written here may show up in any other request
+		c.Params()["_scratch"] = "left-by-" + itoa(reg)
 		c.ResponseWriter().WriteHeader(200)
 		_, _ = c.ResponseWriter().Write([]byte("reg " + itoa(reg)))
 	}
@@ -448,6 +451,7 @@ func (x *treeExec) registerMulti(i int, es []hEntry) (accepted bool, detail stri
 			}()
 		}
 		x.last = o
+		c.Params()["_scratch"] = "left-by-" + itoa(reg)
 		c.ResponseWriter().WriteHeader(200)
 	}
 	var r *flamego.Route
@@ -860,8 +864,12 @@ func (x *treeExec) run(tr *traceWriter) {
 			continue
 		}
 		pairs := []string{}
-		for _, hc := range hp.Hdr {
-			pairs = append(pairs, hc.Name, hc.Expr)
+		for k, hc := range hp.Hdr {
+			nm := hc.Name
+			if (call+k)%3 == 1 {
+				nm = strings.ToLower(nm) // header names are case-insensitive: the constraint may be spelled any way
+			}
+			pairs = append(pairs, nm, hc.Expr)
 		}
 		h.Headers(pairs...)
 		x.curHdr[call] = hp.Hdr
@@ -889,6 +897,7 @@ func (x *treeExec) run(tr *traceWriter) {
 	// (1) the finite request universe of the model, pre-filtered by the P-outcome TLC computed
 	if c.Wins != nil {
 		sample := envInt("VERIF_SAMPLE", 16)
+		prevRaw := ""
 		ms := make([]string, 0, len(c.Wins))
 		for m := range c.Wins {
 			ms = append(ms, m)
@@ -918,7 +927,12 @@ func (x *treeExec) run(tr *traceWriter) {
 							hdr["K"] = ""
 							x.emptyHdr = pi % 3 // absent, present-but-empty and present-without-values must all leave the route invisible
 						}
-						o := x.serve(m, raw, hdr)
+						nest := ""
+						if k%5 == 4 && m == "GET" {
+							nest = prevRaw // a middleware serves the previous path as a nested request before this chain goes on
+						}
+						o := x.serveNested(m, raw, hdr, nest)
+						prevRaw = encBytes(raw)
 						exp := int(win[pi] - '0')
 						treeStats.Compared++
 						k++
@@ -936,7 +950,11 @@ func (x *treeExec) run(tr *traceWriter) {
 	for qi, rq := range c.Reqs {
 		raw := decBytes(rq.Raw)
 		x.emptyHdr = qi % 3
-		o := x.serveNested(rq.M, raw, rq.H, rq.Nest)
+		nest := rq.Nest
+		if nest == "" && qi%4 == 3 {
+			nest = c.Reqs[qi-1].Raw
+		}
+		o := x.serveNested(rq.M, raw, rq.H, nest)
 		emitServe(rq.M, raw, rq.H, o)
 	}
 	// (3) URL building
